@@ -8,14 +8,23 @@ package service
 @*/
 /*@ immutable types/service.subscription.parent types/service.subscription.outch types/service.subscription.cache
   types/service.cache.parent types/service.controller.parent types/service.controller.cache types/service.filterController.filterParent
-  types/service.filterSubscription.filterParent
+  types/service.filterSubscription.filterParent types/service.filterController.controller
 @*/
 /*@ nonblocking-send types/service.subscription.outch
 @*/
 
 /*@ theory servicetyped
 ;; theory lists wiring
-;; uses types/service.event
+;; uses types/service.event types/service.controller
+(declare-fun |F!types/service.filterController!controller| (V) |S!types/service.controller|)
+(assert (forall ((c V)) (! (=> (= (dyntype c) |ty!*types/service.filterController|)
+                               (not (= (|types/service.controller.parent| (|F!types/service.filterController!controller| c)) vnil)))
+                          :pattern ((|F!types/service.filterController!controller| c)))))
+(declare-fun |F!types/service.controller!parent| (V) V)
+; object invariant of the typed controllers (they are only built by newController / newFilterController,
+; whose precondition is a non-nil parent; the field is immutable)
+(assert (forall ((c V)) (! (=> (or (= (dyntype c) |ty!*types/service.controller|) (= (dyntype c) |ty!*types/service.filterController|))
+                               (not (= (|F!types/service.controller!parent| c) vnil))) :pattern ((|F!types/service.controller!parent| c)))))
 (define-fun isT ((o V)) Bool (and (not (= o vnil)) (= (dyntype o) |ty!*core/v1.Service|)))
 (declare-fun tevt-type (V) Str)
 (declare-fun tevt-res (V) V)
@@ -239,6 +248,23 @@ package service
   at call(Refilter) assert [refilters-the-untyped-subscription-with-the-given-filter] (and (= $recv {s.filterParent}) (= $0 {f}))
 @*/
 
+/*@ func types/service.NewMonitor
+  props C20 C16
+  theory servicetyped
+  allow panic
+  note NewMonitor panics for a Publisher that is not one of this package's controllers (documented in the code)
+  requires (and (not (= {publisher} vnil)) (not (= {handler} vnil)))
+  at call(OnInitialize) assert [initialize-adapter] (= (closureOf $0) "types/service.NewMonitor$1")
+  at call(OnCreate) assert [create-adapter-calls-oncreate] (= (closureOf $0) "types/service.NewMonitor$2")
+  at call(OnUpdate) assert [update-adapter-calls-onupdate] (= (closureOf $0) "types/service.NewMonitor$3")
+  at call(OnDelete) assert [delete-adapter-calls-ondelete] (= (closureOf $0) "types/service.NewMonitor$4")
+  ensures (=> (= result1 vnil) (not (= result0 vnil)))
+@*/
+/*@ func types/service.BuildHandler
+  props C20
+  fresh result
+  ensures (not (= result vnil))
+@*/
 /*@ func types/service.NewMonitor$1
   props C20 C16
   theory servicetyped
